@@ -460,3 +460,65 @@ def rf145(run):
                                                'the engines read the operand with the expected type (an 80-bit long double as a double), so ill-formed '
                                                'code runs and computes garbage' if not rejected else 'well-formed code is refused'), line=loops[0]['l'])
     return n
+
+
+# ---------------------------------------------------------------------------------------------
+# RF154: per-instruction checks of MIR_finish_func do not depend on the operand count
+# ---------------------------------------------------------------------------------------------
+
+def rf154(run):
+    from lib import printexec as PE
+    rule = 'RF154'
+    run.rule(rule, 'MIR_finish_func, statements in front of the operand loop, executed abstractly per instruction: `ret` with k operands in '
+                   'a function with n results is an error exactly when k != n — also for k == 0 —, `use` / `phi` are errors with any operand '
+                   'count, `va_start` outside a variadic function and `jret` in a function with results are errors.  A shortcut for '
+                   'operand-less instructions placed in front of these checks accepts `ret` without values in a non-void function')
+    tu = run.tu('mir')
+    f = tu.func('MIR_finish_func')
+    run.functions_analysed.add(('mir', f.name))
+    outer = [l for l in f.walk() if l['k'] == 'ForStmt' and any(y['k'] == 'ForStmt' and y['c'][1] is not None and 'actual_nops' in F.src(y['c'][1]) for y in F.walk(l['c'][3]))]
+    if not outer:
+        raise F.AnalysisBroken('MIR_finish_func: the loop over the instructions was not found')
+    body = F.kids(outer[0]['c'][3])
+    head = []
+    for s_ in body:
+        if s_['k'] == 'ForStmt' and s_['c'][1] is not None and 'actual_nops' in F.src(s_['c'][1]):
+            break
+        head.append(s_)
+    codes = dict(tu.enum('MIR_insn_code_t'))
+    cases = [('ret with 0 operands, 1 result', {'code': 'MIR_RET', 'nops': 0, 'nres': 1}, True),
+             ('ret with 0 operands, 2 results', {'code': 'MIR_RET', 'nops': 0, 'nres': 2}, True),
+             ('ret with 2 operands, 1 result', {'code': 'MIR_RET', 'nops': 2, 'nres': 1}, True),
+             ('ret with 1 operand, 1 result', {'code': 'MIR_RET', 'nops': 1, 'nres': 1}, False),
+             ('ret with 0 operands, 0 results', {'code': 'MIR_RET', 'nops': 0, 'nres': 0}, False),
+             ('use with 0 operands', {'code': 'MIR_USE', 'nops': 0, 'nres': 0}, True),
+             ('phi with 3 operands', {'code': 'MIR_PHI', 'nops': 3, 'nres': 0}, True),
+             ('va_start in a non-variadic function', {'code': 'MIR_VA_START', 'nops': 1, 'nres': 0}, True),
+             ('jret in a function with a result', {'code': 'MIR_JRET', 'nops': 1, 'nres': 1}, True)]
+    n = 0
+    for what, c, want in cases:
+        ex = PE.PrintExec(tu, {}, {'MIR_insn_nops': lambda a, e, x: c['nops']}, {})
+        env = {'insn->code': codes[c['code']], 'curr_func->nres': c['nres'], 'curr_func->vararg_p': 0, 'ret_p': 0, 'jret_p': 0, 'expr_p': 1,
+               'actual_nops': c['nops'], 'ctx->curr_func->nres': c['nres'], 'ctx->curr_func->vararg_p': 0}
+        skipped = False
+        try:
+            for s_ in head:
+                r = ex.run(s_, env)
+                if r == 'continue':
+                    skipped = True
+                    break
+                if r in ('break', 'return'):
+                    break
+                if ex.errors:
+                    break
+        except F.AnalysisBroken as e_:
+            raise F.AnalysisBroken('MIR_finish_func: instruction checks not executable (%s): %s' % (what, e_))
+        rejected = bool(ex.errors)
+        ok = rejected == want
+        n += 1
+        run.ob(rule, (what,), ok, {'case': what, 'rejected': rejected, 'expected': want, 'skipped by an early continue': skipped})
+        if not ok:
+            run.violation(rule, f, what, '%s is %s by MIR_finish_func%s: %s' %
+                          (what, 'rejected' if rejected else 'accepted', ' (an early `continue` skips the checks)' if skipped else '',
+                           'the function returns without the values its callers read' if want else 'well-formed code is refused'), line=outer[0]['l'])
+    return n
